@@ -104,7 +104,9 @@ func genHandler(r *core.Rand, mi *methodInfo, nresp int, limit int, codec string
 	// final status
 	if r.Chance(1, 3) {
 		h.Code = 1 + r.Intn(16)
-		h.Msg = r.PickS("boom", "no such thing", "a b c", "x", "100%25 done", "a%2Fb", "caf\u00e9 %41", "%")
+		h.Msg = r.PickS("boom", "no such thing", "a b c", "x", "100%25 done", "a%2Fb", "caf\u00e9 %41", "%",
+			// (longer than the reason of a WebSocket close frame can be: 123 bytes)
+			"the quota of this project for streaming calls has been used up for the current billing period; ask the owner of the project to raise it or wait until the first of next month")
 	}
 	for i := 0; i < nresp; i++ {
 		size := r.Pick(0, 1, 5, 8, 20, 63, 64, 65, 200, 1000)
